@@ -326,7 +326,7 @@ fn pairing_rows(rows: &mut Vec<(String, RowFn)>) {
     use ark_ec::short_weierstrass::SWCurveConfig;
     use ark_ec::{AffineRepr, CurveConfig, CurveGroup, Group};
     use ark_ff::{Field, PrimeField};
-    use ark_serialize::CanonicalSerialize;
+    use ark_serialize::{CanonicalDeserialize, CanonicalSerialize};
     type E = decaf377::Bls12_377;
     type G1 = <E as Pairing>::G1Affine;
     type G2 = <E as Pairing>::G2Affine;
@@ -425,6 +425,10 @@ fn pairing_rows(rows: &mut Vec<(String, RowFn)>) {
             if G1::generator() != g {
                 return Err("AffineRepr::generator() != SWCurveConfig::GENERATOR".into());
             }
+            // the literal must be the *reduced* representation: a value round trip compares the limbs
+            if G1::deserialize_uncompressed(&a[..]).ok() != Some(g) {
+                return Err("G1 generator literal is not in reduced form: deserialize(serialize(G)) != G".into());
+            }
             Ok(())
         }),
     ));
@@ -444,6 +448,9 @@ fn pairing_rows(rows: &mut Vec<(String, RowFn)>) {
             r.serialize_uncompressed(&mut b).map_err(|e| e.to_string())?;
             if a != b {
                 return Err("G2 generator differs from the reference arkworks generator".into());
+            }
+            if G2::deserialize_uncompressed(&a[..]).ok() != Some(g) {
+                return Err("G2 generator literal is not in reduced form: deserialize(serialize(G)) != G".into());
             }
             let (mut a, mut b) = (Vec::new(), Vec::new());
             <C2 as SWCurveConfig>::COEFF_B.serialize_uncompressed(&mut a).map_err(|e| e.to_string())?;
